@@ -41,6 +41,32 @@ func vhFreshCount(cmds []*Command, marks []uint64) int {
 
 func vhHasToken(c *CommandCache) bool { return len(c.ready) > 0 }
 
+// vhSameFresh: the fresh commands held by the cache (those above their client's mark), in cache
+// order, are exactly want. Stale entries the implementation may or may not keep are not compared:
+// the property speaks about fresh commands only.
+func vhSameFresh(c *CommandCache, marks []uint64, want []*Command, label string) {
+	j := 0
+	for _, cmd := range c.cache {
+		if !vhFresh(cmd, marks) {
+			continue
+		}
+		vassert(j < len(want) && want[j] == cmd, label)
+		j++
+	}
+	vassert(j == len(want), label)
+}
+
+func vhFreshOf(cmds []*Command, marks []uint64) []*Command {
+	var out []*Command
+	for _, cmd := range cmds {
+		if vhFresh(cmd, marks) {
+			out = append(out, cmd)
+		}
+	}
+	return out
+}
+
+
 // C15: one operation (op 0 Add, 1 Proposed, 2 Get, 3 Get with cancelled context) from an
 // arbitrary state satisfying the wake-up invariant "enough fresh commands => ready token".
 func VH_C15_step(k int, bs int, op int) {
@@ -60,15 +86,12 @@ func VH_C15_step(k int, bs int, op int) {
 		c.Add(cmd)
 		if vhFresh(cmd, marks) {
 			vcover("add-accepted")
-			vassert(len(c.cache) == k+1 && c.cache[k] == cmd, "fresh-command-appended-last")
 			cmds = append(cmds, cmd)
 		} else {
 			vcover("add-rejected")
-			vassert(len(c.cache) == k, "stale-command-not-accepted")
 		}
-		for i := 0; i < k; i++ {
-			vassert(c.cache[i] == cmds[i], "add-keeps-earlier-commands-in-order")
-		}
+		// a fresh command joins the waiting fresh commands at the end; a stale one changes nothing
+		vhSameFresh(c, marks, vhFreshOf(cmds, marks), "add-appends-a-fresh-command-last-and-keeps-the-others-in-order")
 	case 1:
 		b := &Batch{}
 		for j := 0; j < 2; j++ {
@@ -85,7 +108,7 @@ func VH_C15_step(k int, bs int, op int) {
 			}
 		}
 		vassert(c.clientSeqNumbers[1] == marks[1] && c.clientSeqNumbers[2] == marks[2], "marks-are-the-highest-proposed-sequence-numbers")
-		vassert(len(c.cache) == k, "proposed-keeps-the-cache")
+		vhSameFresh(c, marks, vhFreshOf(cmds, marks), "proposed-loses-no-command-that-is-still-fresh")
 	case 2:
 		var batch *Batch
 		var err error
@@ -106,10 +129,8 @@ func VH_C15_step(k int, bs int, op int) {
 						last = i
 					}
 				}
-				vassert(len(c.cache) == k-(last+1), "examined-commands-leave-the-cache")
-				for i := last + 1; i < k; i++ {
-					vassert(c.cache[i-(last+1)] == cmds[i], "later-commands-stay-in-order")
-				}
+				// what was handed out is gone, every other fresh command still waits, in order
+				vhSameFresh(c, marks, vhFreshOf(cmds[last+1:], marks), "handed-out-commands-leave-later-fresh-commands-stay-in-order")
 				for _, cmd := range batch.Commands {
 					vassert(vhFresh(cmd, marks), "nothing-at-or-below-a-mark-is-handed-out")
 				}
@@ -118,10 +139,7 @@ func VH_C15_step(k int, bs int, op int) {
 		} else {
 			vcover("get-blocks")
 			vassert(blocked, "get-blocks-without-a-full-fresh-batch")
-			vassert(len(c.cache) == k, "blocked-get-keeps-the-cache")
-			for i := 0; i < k; i++ {
-				vassert(c.cache[i] == cmds[i], "blocked-get-keeps-the-cache")
-			}
+			vhSameFresh(c, marks, vhFreshOf(cmds, marks), "blocked-get-loses-no-fresh-command")
 		}
 	default:
 		vassume(!token)
@@ -131,7 +149,7 @@ func VH_C15_step(k int, bs int, op int) {
 		var err error
 		blocked := vblocked(func() { batch, err = c.Get(ctx) })
 		vassert(!blocked && err != nil && batch == nil, "cancelled-get-returns-the-context-error")
-		vassert(len(c.cache) == k, "cancelled-get-keeps-the-cache")
+		vhSameFresh(c, marks, vhFreshOf(cmds, marks), "cancelled-get-loses-no-fresh-command")
 	}
 	// the wake-up invariant is preserved
 	if op != 3 {
